@@ -114,9 +114,17 @@ def run(ctx):
             total_steps += len(steps)
             payload = {k: v for k, v in c.items() if k in ("params", "events", "picks", "name")}
             ctx.add_case(json.dumps(payload, sort_keys=True), True)
+            exp = c.get("expect", {})
+            if not c["params"]["fifo"]:
+                # bag delivery is outside the property's quantifier: what the oracle sees here is information, and the
+                # witness must keep showing the violation (otherwise the model of the network discipline is wrong)
+                ctx.extra.setdefault("bag_mode_findings", []).extend(sorted(set(f["signature"] for f in failures)))
+                if exp.get("bag_violation") and not failures:
+                    ctx.breaks.append({"what": "corpus case %s (bag delivery) no longer violates leader completeness" % c.get("name"), "case": payload})
+                failures = []
+                steps = steps[:-1] if steps and steps[-1][1] >= 2 else steps
             for f in failures:
                 ctx.failures.append({"signature": f["signature"], "what": f["what"], "case": payload, "obs": {"step": f["step"]}})
-            exp = c.get("expect", {})
             if exp.get("spec_lc_as_written_violated") and spec_lc == 0:
                 ctx.breaks.append({"what": "corpus case %s no longer shows the spec's LeaderCompleteness-as-written failing" % c.get("name"),
                                    "case": payload})
@@ -134,7 +142,8 @@ def run(ctx):
                 params = W.gen_params(rng, ctx.tier)
                 profile = rng.choice(sorted(W.PROFILES))
                 nsteps = rng.randint(lo, hi)
-                prefix = W.scripted_election(params["n"], rng.randint(1, params["n"])) if rng.random() < 0.4 else ()
+                r = rng.random()
+                prefix = W.scripted_election(params["n"], rng.randint(1, params["n"])) if r < 0.4 else W.scripted_duel(params["n"]) if r < 0.55 else ()
                 res = W.walk(h, rng, params, nsteps, profile, prefix=prefix)
                 payload = {"params": params, "events": res.intended, "picks": res.picks, "profile": profile}
                 ctx.add_case(json.dumps(payload, sort_keys=True), res.nontrivial)
@@ -156,6 +165,28 @@ def run(ctx):
     ctx.extra["label_outcome_coverage"] = dict(sorted(cover.items()))
     ctx.extra["states_where_spec_LeaderCompleteness_as_written_is_false"] = spec_lc_total
     check_in_coq(ctx, "C08_cases", coq_cases, "random walk / corpus")
+    # the tie broke but the oracle saw no violation yet: spend a fixed budget searching for a failing schedule (DESIGN section 5)
+    if ctx.breaks and not ctx.failures and not ctx.replay:
+        budget = 30 if ctx.tier == "quick" else 400
+        t1 = time.time()
+        h = R.Harness("c08")
+        tried = 0
+        try:
+            while time.time() - t1 < budget and not ctx.failures:
+                n = rng.choice([2, 3, 3, 3, 5])
+                params = {"n": n, "nc": rng.choice([1, 2]), "buf": rng.choice([3, 6, 10]), "fifo": True, "explorefail": True,
+                          "crashers": [], "keys": 1, "vals": 2}
+                profile = rng.choice(["elections", "elections", "lossy", "steady"])
+                r = rng.random()
+                prefix = W.scripted_election(n, rng.randint(1, n)) if r < 0.4 else W.scripted_duel(n) if r < 0.8 else ()
+                res = W.walk(h, rng, params, rng.randint(300, 1500), profile, prefix=prefix, full_every=0)
+                tried += 1
+                payload = {"params": params, "events": res.intended, "picks": res.picks, "profile": profile}
+                for f in res.failures:
+                    ctx.failures.append({"signature": f["signature"], "what": f["what"], "case": payload, "obs": {"step": f["step"]}})
+        finally:
+            h.close()
+        ctx.extra["search_after_break"] = {"walks": tried, "seconds": round(time.time() - t1, 1), "found": bool(ctx.failures)}
 
 
 MANIFEST = {
